@@ -185,15 +185,33 @@ def cancelled_before_start_issues_no_request(ctx):
                f'transition to a non-done state must be refused (raise) when done() (guards={g})')
 
 
-@rule('C07.e', ['C07'], floor=4)
+@rule('C07.e', ['C07', 'C08', 'C04', 'C03'], floor=5)
 def ctrl_c(ctx):
     """TransferFuture.result and TransferManager._shutdown each have a KeyboardInterrupt
-    handler that cancels and re-raises; in _shutdown the executor joins are in finally."""
+    handler that cancels and re-raises; in _shutdown the executor joins are in finally and the
+    interrupt cancels with the default (CancelledError) type; the serial executor lets
+    KeyboardInterrupt/SystemExit through (its handler catches Exception only)."""
     f = ctx.func('futures.TransferFuture.result')
     _ki_handler(ctx, f, lambda c, r: r.kind == 'package' and any(t.qualname.endswith('.cancel') for t in r.targets), 'self.cancel()')
     f = ctx.func('manager.TransferManager._shutdown')
     _ki_handler(ctx, f, lambda c, r: r.kind == 'package' and any(t.qualname == 'manager.TransferCoordinatorController.cancel' for t in r.targets),
                 'self._coordinator_controller.cancel(...)')
+    # the interrupt is the user's cancellation: CancelledError (the callee's default), whatever type the caller asked
+    # _shutdown to use for its own cancel
+    tgt = ctx.func('manager.TransferCoordinatorController.cancel')
+    for h in [h for h in own_nodes(f.node) if isinstance(h, ast.ExceptHandler) and h.type is not None and 'KeyboardInterrupt' in norm(h.type)]:
+        for c in [c for c in ast.walk(h) if isinstance(c, ast.Call)]:
+            r = ctx.r.resolve(c, f, _count=False)
+            if r.kind == 'package' and tgt in r.targets:
+                b = q.bind_args(ctx, c, f, tgt) or {}
+                et = b.get('exc_type')
+                ctx.ob(f, c, et is None or norm(et) == 'CancelledError', 'Ctrl-C while waiting must finish the transfers with CancelledError, not with the type meant for errors in the with-block')
+    n = ctx.func('futures.NonThreadedExecutor.submit')
+    hs = [h for h in own_nodes(n.node) if isinstance(h, ast.ExceptHandler)]
+    from .c03 import retryable_names
+    ok = len(hs) == 1 and retryable_names(ctx, n, hs[0]) == ['Exception']
+    ctx.ob(n, 'NonThreadedExecutor.submit: except Exception (interrupts propagate)', ok,
+           'with the serial executor a KeyboardInterrupt must reach SubmissionTask._main / the caller: parked on a task future it lets the remaining requests run and the final task announce a transfer that never got a final status')
 
 
 def _ki_handler(ctx, f, is_cancel, what):
@@ -228,6 +246,28 @@ def inflight_work_notices(ctx):
         ok = any('_transfer_coordinator.exception' in t and pol is False for t, pol in gs)
         raises = [n for n in own_nodes(f.node) if isinstance(n, ast.Raise) and n.exc is not None and '_transfer_coordinator.exception' in norm(n.exc)]
         ctx.ob(f, c, ok and bool(raises), f'the wrapped read must be reached only when no exception is recorded, otherwise raise it (guards={gs})')
+    # every upload body goes through an InterruptReader, on every path of the wrapping helper (the bandwidth-limited
+    # stream only looks at the coordinator when it has to wait for the bucket - not on ordinary reads)
+    w = ctx.func('upload.UploadInputManager._wrap_fileobj')
+    gw = ctx.cfg(w)
+    irs = [c for c in own_calls(w.node) if norm(c.func) == 'InterruptReader']
+    okw = len(irs) == 1 and norm(q.argn(irs[0], 'transfer_coordinator', 1)) == 'self._transfer_coordinator' \
+        and gw.must_pass([gw.entry], gw.nodes_of(irs[0]), [gw.exit], gw.NORMAL)
+    rets = [x for x in own_nodes(w.node) if isinstance(x, ast.Return) and x.value is not None]
+    def through_interrupt(e, depth=0):
+        # the returned stream is the InterruptReader itself or a wrapper built around (a local holding) it
+        if depth > 4:
+            return False
+        e = q.resolve_local(w, e) if isinstance(e, ast.Name) and q.single_def(w, e.id) is not None else e
+        if e in irs:
+            return True
+        if isinstance(e, ast.Name):
+            return any(through_interrupt(v, depth + 1) for _, v in q.local_defs(w, e.id) if isinstance(v, ast.AST))
+        if isinstance(e, ast.Call):
+            return any(through_interrupt(a, depth + 1) for a in list(e.args) + [k.value for k in e.keywords])
+        return False
+    ctx.ob(w, '_wrap_fileobj: the body is wrapped in InterruptReader(fileobj, self._transfer_coordinator) on every path', okw and bool(rets) and all(through_interrupt(r.value) for r in rets),
+           'an upload body that is not interrupt-aware keeps streaming after a cancel/failure: the request completes and the transfer can report success')
     f = ctx.func('bandwidth.BandwidthLimitedStream._consume_through_leaky_bucket')
     consumes = [c for c in own_calls(f.node) if dotted(c.func) and dotted(c.func).endswith('_leaky_bucket.consume')]
     ctx.need(consumes, 'no consume call in _consume_through_leaky_bucket')
